@@ -163,6 +163,20 @@ pub fn valid_case(cx: &mut Ctx, n: u64, case: &Value) {
                                 cx.bad("C14", "polygon_doubled_vertices_is_valid", case, json!({"what": "every vertex of every ring repeated once", "got": format!("{qv:?}"), "want": want}));
                             }
                         }
+                        // only the two extreme vertices (lexicographically least and greatest) written twice
+                        {
+                            let ends = |l: &geo::LineString<f64>| -> geo::LineString<f64> {
+                                let key = |c: &geo::Coord<f64>| (c.x, c.y);
+                                let lo = l.0.iter().map(key).fold((f64::INFINITY, f64::INFINITY), |a, b| if b < a { b } else { a });
+                                let hi = l.0.iter().map(key).fold((f64::NEG_INFINITY, f64::NEG_INFINITY), |a, b| if b > a { b } else { a });
+                                geo::LineString::new(l.0.iter().flat_map(|c| if key(c) == lo || key(c) == hi { vec![*c, *c] } else { vec![*c] }).collect())
+                            };
+                            let q = geo::Polygon::new(ends(p.exterior()), p.interiors().iter().map(ends).collect());
+                            let qv = guard(|| (q.is_valid(), q.validation_errors().is_empty()));
+                            if qv == Ok((want, want)) { cx.ok("polygon_doubled_vertices_is_valid"); } else {
+                                cx.bad("C14", "polygon_doubled_vertices_is_valid", case, json!({"what": "the lexicographically extreme vertices of every ring repeated once", "got": format!("{qv:?}"), "want": want}));
+                            }
+                        }
                         for (k, rev) in [(1usize, false), (2, true), (0, true)] {
                             let closed_input = p.exterior().0.first() == p.exterior().0.last() && p.interiors().iter().all(|h| h.0.first() == h.0.last());
                             if !closed_input { break; }
